@@ -190,6 +190,6 @@ def to_trace(rules, imports, scans, run_events, maxm):
         elif e == "ScanRet":
             ep = ev.get("entry_point", 0)
             fs = ev.get("file_size", 0)
-            out.append({"e": "Ret", "ret": ERR.get(ev["ret"], "E%d" % ev["ret"]), "resid": ev["resid"],
+            out.append({"e": "Ret", "ret": ERR.get(ev["ret"], "E%d" % ev["ret"]), "resid": ev.get("resid", {}),
                         "entry_point": UNDEF if ep == "undef" else ep, "file_size": UNDEF if fs == "undef" else fs})
     return out
